@@ -430,8 +430,11 @@ def check_main(argv):
         "wall_s": round(wall, 2),
         "violations": len(confirmed),
     }
-    os.makedirs(os.path.join(VERIF, "evidence"), exist_ok=True)
-    with open(os.path.join(VERIF, "evidence", f"{pid}.json"), "w") as f:
+    # evidence/ only ever holds runs against /repo itself; runs against a scratch copy (seeded changes, development) go to out/
+    alt = os.environ.get("POLAR_REPO", "/repo") != "/repo" or os.environ.get("VERIF_EVIDENCE_DIR")
+    evdir = os.environ.get("VERIF_EVIDENCE_DIR") or (os.path.join(OUT, "evidence-scratch") if alt else os.path.join(VERIF, "evidence"))
+    os.makedirs(evdir, exist_ok=True)
+    with open(os.path.join(evdir, f"{pid}.json"), "w") as f:
         json.dump(ev, f, indent=1, default=str)
 
     print(f"{pid} {args.tier} seed={seed}: {merged['evaluations']} cases, {len(nt)} distinct non-trivial, "
